@@ -28,6 +28,7 @@ type Report struct {
 	knownLines     []string
 	knownConfirmed []string
 	singleSolver   []string
+	detOnly        []string
 	samples        []map[string]interface{}
 	solverSecs     map[string]float64
 	loadSecs       float64
@@ -213,6 +214,7 @@ func (r *Report) finish(evidencePath string) int {
 			"out_of_reach_or_malformed": r.problems,
 			"known_findings_confirmed": r.knownConfirmed,
 			"single_solver":            r.singleSolver,
+			"determinism_only_functions": r.detOnly,
 			"encoder_notes":            r.encNotes,
 			"notes":                    r.notes,
 			"not_decided":              notDecided(r.cfg),
